@@ -700,8 +700,453 @@ def fam_misc(R, idx):
     return "misc_k%d_w%d" % (kind, w), _emit(ctx, blocks, decl)
 
 
+
+# --------------------------------------------------------------------------------------
+# n-dimensional array-like constructs (family "nd") and loop-variable uses (family "lv")
+#
+# The back ends have separate code for one dimension and for n dimensions of nearly every array-like
+# construct, and for loop variables in index / operand / width-preserving positions.  These two families
+# enumerate the grid  construct x dimensionality x access mode  (resp. range form x use)  systematically;
+# every element gets its own function (distinct constant per element, flat <-> n-D index maps), so that a
+# transposition, a wrong stride or a truncated loop variable changes an output.
+# --------------------------------------------------------------------------------------
+
+ND_CONSTRUCTS = ["port", "wire", "pfield", "pfwire", "pftmp", "sfield", "ifc", "ifcnest", "ifcport", "comp", "comphet",
+                 "compifc", "constarr"]
+ND_DIMS = {1: [(3,), (4,)], 2: [(2, 3), (3, 2)], 3: [(2, 3, 2), (3, 2, 2), (2, 2, 3)]}
+
+
+def _prod(ds):
+    n = 1
+    for d in ds:
+        n *= d
+    return n
+
+
+def _elems(dims):
+    import itertools
+    return list(itertools.product(*[range(d) for d in dims]))
+
+
+def _flat(dims, ix):
+    f = 0
+    for d, i in zip(dims, ix):
+        f = f * d + i
+    return f
+
+
+def _flat_expr(dims, names):
+    """row-major flat index of the loop variables `names` as source text: i*6 + j*2 + k"""
+    terms = []
+    for k, n in enumerate(names):
+        st = _prod(dims[k + 1:])
+        terms.append(n if st == 1 else "%s*%d" % (n, st))
+    return " + ".join(terms)
+
+
+def _nest(dims, n=None):
+    """a (nested) list comprehension building `n`-dimensional lists: ('[ [ ', ' for _ in range(3) ] for _ in range(2) ]')"""
+    pre = "[ " * len(dims)
+    post = "".join(" for _ in range(%d) ]" % d for d in reversed(dims))
+    return pre, post
+
+
+def _sub(ix):
+    return "".join("[%s]" % i for i in ix)
+
+
+class _NDBase:
+    internal = False        # True: the written instances are observed by reading the same instance back
+    readable = True         # has an input side
+    writable = True         # has an output side
+    connect = True          # elements can be used in connect statements
+    whole = False
+
+    def __init__(s, ctx, dims, w):
+        s.ctx, s.dims, s.w, s.N = ctx, dims, w, _prod(dims)
+
+    def pre_rd(s, name):    # statements at the start of a block reading instance `name`
+        return []
+
+    def post_wr(s, name, mode):   # statements at the end of a block writing instance `name`
+        return []
+
+    def extra(s):           # (decl lines, blocks, sigs): whole-value traffic etc.
+        return [], [], {}
+
+
+class _NDPort(_NDBase):
+    def _arr(s, name, kind):
+        pre, post = _nest(s.dims)
+        return ["s.%s = %s%s( Bits%d )%s" % (name, pre, kind, s.w, post)]
+
+    def decl_in(s, name):
+        return s._arr(name, "InPort")
+
+    def decl_out(s, name):
+        return s._arr(name, "OutPort")
+
+    def rd(s, name, ix):
+        return "s.%s%s" % (name, _sub(ix))
+
+    wr = rd
+
+
+class _NDWire(_NDPort):
+    internal = True
+
+    def decl_int(s, name):
+        return s._arr(name, "Wire")
+
+
+class _NDPField(_NDBase):
+    """packed array of Bits inside a struct (field `arr` between two fields of odd widths)"""
+    whole = True
+    elem = None
+
+    def __init__(s, ctx, dims, w):
+        _NDBase.__init__(s, ctx, dims, w)
+        s.sname = "NS%d" % len(dims)
+        et = "Bits%d" % w
+        s.ew = w
+        if s.elem == "struct":
+            ctx.globals_.append("@bitstruct\nclass NPt:\n  x: Bits%d\n  y: Bits3\n" % w)
+            et = "NPt"
+            s.ew = w + 3
+        ft = "[ " * len(dims) + et + "".join(" ] * %d" % d for d in reversed(dims))
+        ctx.globals_.append("@bitstruct\nclass %s:\n  hd: Bits3\n  arr: %s\n  tl: Bits5\n" % (s.sname, ft))
+        s.nbits = 8 + s.ew * s.N
+
+    def decl_in(s, name):
+        return ["s.%s = InPort( %s )" % (name, s.sname)]
+
+    def decl_out(s, name):
+        return ["s.%s = OutPort( %s )" % (name, s.sname)]
+
+    def rd(s, name, ix):
+        return "s.%s.arr%s%s" % (name, _sub(ix), ".x" if s.elem == "struct" else "")
+
+    wr = rd
+
+    def post_wr(s, name, mode):
+        if mode == "n":
+            return ["s.%s.hd //= s.fi[0][0:3]" % name, "s.%s.tl //= s.fi[%d][1:6]" % (name, s.N - 1)] + \
+                   (["s.%s.arr%s.y //= s.fi[%d][2:5]" % (name, _sub(ix), _flat(s.dims, ix)) for ix in _elems(s.dims)]
+                    if s.elem == "struct" else [])
+        out = ["s.%s.hd @= s.fi[0][0:3]" % name, "s.%s.tl @= s.fi[%d][1:6]" % (name, s.N - 1)]
+        if s.elem == "struct":
+            out += ["s.%s.arr%s.y @= s.fi[%d][2:5]" % (name, _sub(ix), _flat(s.dims, ix)) for ix in _elems(s.dims)]
+        return out
+
+    def extra(s):
+        # whole-struct traffic: struct -> bits, struct -> struct (update block and connect)
+        decl = ["s.xb = OutPort( mk_bits( %d ) )" % s.nbits, "s.xs = OutPort( %s )" % s.sname, "s.xn = OutPort( %s )" % s.sname,
+                "s.xn //= s.a"]
+        blocks = [_block("up_whole", ["s.xb @= s.a", "s.xs @= s.a"])]
+        t = "%s.d%d.whole" % (s.kind, len(s.dims))
+        return decl, blocks, {"xb": t + ".bits", "xs": t + ".upblk", "xn": t + ".connect"}
+
+
+class _NDSField(_NDPField):
+    elem = "struct"
+
+
+class _NDPFWire(_NDPField):
+    """struct wire: written by field / read by field, and written as a whole / read by field"""
+    internal = True
+
+    def decl_int(s, name):
+        return ["s.%s = Wire( %s )" % (name, s.sname)]
+
+    def post_wr(s, name, mode):
+        return []
+
+    def extra(s):
+        # a struct wire written as a whole (from an input port) and read by field; written by field, read whole
+        pre, post = _nest((s.N,))
+        decl = ["s.a = InPort( %s )" % s.sname, "s.ww = Wire( %s )" % s.sname, "s.yf = %sOutPort( Bits%d )%s" % (pre, s.w, post),
+                "s.yb = OutPort( mk_bits( %d ) )" % s.nbits, "s.wf = Wire( %s )" % s.sname]
+        b1 = ["s.ww @= s.a"] + ["s.yf[%d] @= s.ww.arr%s + %d" % (_flat(s.dims, ix), _sub(ix), _flat(s.dims, ix) + 1)
+                                for ix in _elems(s.dims)]
+        b2 = ["s.wf.hd @= s.fi[0][0:3]", "s.wf.tl @= s.fi[%d][1:6]" % (s.N - 1)] + \
+             ["s.wf.arr%s @= s.fi[%d]" % (_sub(ix), _flat(s.dims, ix)) for ix in _elems(s.dims)]
+        t = "%s.d%d.whole" % (s.kind, len(s.dims))
+        return decl, [_block("up_ww", b1), _block("up_wf", b2), _block("up_yb", ["s.yb @= s.wf"])], \
+            {"yf": t + ".wr+field.rd", "yb": "%s.d%d.field.wr+whole.rd" % (s.kind, len(s.dims))}
+
+
+class _NDPFTmp(_NDPField):
+    """struct-typed temporary: t = s.a; t.arr[i][j]"""
+    writable = False
+    connect = False
+    whole = False
+
+    def pre_rd(s, name):
+        return ["t = s.%s" % name]
+
+    def rd(s, name, ix):
+        return "t.arr%s" % _sub(ix)
+
+    def extra(s):
+        return [], [], {}
+
+
+class _NDIfc(_NDBase):
+    def __init__(s, ctx, dims, w):
+        _NDBase.__init__(s, ctx, dims, w)
+        ctx.globals_.append("class NInIfc( Interface ):\n  def construct( s ):\n    s.msg = InPort( Bits%d )\n"
+                            "    s.val = InPort( Bits1 )\n" % w)
+        ctx.globals_.append("class NOutIfc( Interface ):\n  def construct( s ):\n    s.msg = OutPort( Bits%d )\n"
+                            "    s.val = OutPort( Bits1 )\n" % w)
+
+    def _arr(s, name, cls):
+        pre, post = _nest(s.dims)
+        return ["s.%s = %s%s()%s" % (name, pre, cls, post)]
+
+    def decl_in(s, name):
+        return s._arr(name, "NInIfc")
+
+    def decl_out(s, name):
+        return s._arr(name, "NOutIfc")
+
+    def rd(s, name, ix):
+        return "s.%s%s.msg" % (name, _sub(ix))
+
+    wr = rd
+
+    def post_wr(s, name, mode):
+        es = _elems(s.dims)
+        if mode == "n":
+            return ["s.%s%s.val //= s.fi[%d][%d]" % (name, _sub(ix), _flat(s.dims, ix), _flat(s.dims, ix) % 3) for ix in es]
+        return ["s.%s%s.val @= s.fi[%d][%d]" % (name, _sub(ix), _flat(s.dims, ix), _flat(s.dims, ix) % 3) for ix in es]
+
+
+class _NDIfcNest(_NDBase):
+    """an array of interfaces inside (an array of) interfaces: s.a[i].inner[j].msg"""
+    member = "inner"
+
+    def __init__(s, ctx, dims, w):
+        _NDBase.__init__(s, ctx, dims, w)
+        s.odims, s.idim = dims[:-1], dims[-1]
+        for d in ("In", "Out"):
+            ctx.globals_.append("class NInner%s( Interface ):\n  def construct( s ):\n    s.msg = %sPort( Bits%d )\n" % (d, d, w))
+            ctx.globals_.append("class NOuter%s( Interface ):\n  def construct( s ):\n    s.tag = %sPort( Bits2 )\n"
+                                "    s.inner = [ NInner%s() for _ in range(%d) ]\n" % (d, d, d, s.idim))
+
+    def _arr(s, name, cls):
+        pre, post = _nest(s.odims)
+        return ["s.%s = %s%s()%s" % (name, pre, cls, post)]
+
+    def decl_in(s, name):
+        return s._arr(name, "NOuterIn")
+
+    def decl_out(s, name):
+        return s._arr(name, "NOuterOut")
+
+    def rd(s, name, ix):
+        return "s.%s%s.inner[%s].msg" % (name, _sub(ix[:-1]), ix[-1])
+
+    wr = rd
+
+    def post_wr(s, name, mode):
+        op = "//=" if mode == "n" else "@="
+        return ["s.%s%s.tag %s s.fi[%d][1:3]" % (name, _sub(ix), op, _flat(s.odims, ix) % s.N) for ix in _elems(s.odims)]
+
+
+class _NDIfcPort(_NDIfcNest):
+    """an array of ports inside (an array of) interfaces: s.a[i].p[j]"""
+
+    def __init__(s, ctx, dims, w):
+        _NDBase.__init__(s, ctx, dims, w)
+        s.odims, s.idim = dims[:-1], dims[-1]
+        for d in ("In", "Out"):
+            ctx.globals_.append("class NOuter%s( Interface ):\n  def construct( s ):\n    s.tag = %sPort( Bits2 )\n"
+                                "    s.p = [ %sPort( Bits%d ) for _ in range(%d) ]\n" % (d, d, d, w, s.idim))
+
+    def rd(s, name, ix):
+        return "s.%s%s.p[%s]" % (name, _sub(ix[:-1]), ix[-1])
+
+    wr = rd
+
+
+class _NDComp(_NDBase):
+    """array of sub-components: the parent writes the input ports and reads the output ports of the elements"""
+    internal = True
+    het = False
+
+    def __init__(s, ctx, dims, w):
+        _NDBase.__init__(s, ctx, dims, w)
+        ctx.globals_.append("class NSub( Component ):\n  def construct( s, k ):\n    s.in_ = InPort( Bits%d )\n"
+                            "    s.out = OutPort( Bits%d )\n    @update\n    def up():\n      s.out @= s.in_ + k\n" % (w, w))
+
+    def decl_int(s, name):
+        if s.het:
+            def build(ix, dims):
+                if not dims:
+                    return "NSub( %d )" % (_flat(s.dims, ix) * 2 + 1)
+                return "[ " + ", ".join(build(ix + (i,), dims[1:]) for i in range(dims[0])) + " ]"
+            return ["s.%s = %s" % (name, build((), s.dims))]
+        pre, post = _nest(s.dims)
+        return ["s.%s = %sNSub( 5 )%s" % (name, pre, post)]
+
+    def rd(s, name, ix):
+        return "s.%s%s.out" % (name, _sub(ix))
+
+    def wr(s, name, ix):
+        return "s.%s%s.in_" % (name, _sub(ix))
+
+
+class _NDCompHet(_NDComp):
+    het = True
+
+
+class _NDCompIfc(_NDBase):
+    """array of sub-components with arrays of interfaces: s.c[i].ii[j].msg"""
+    internal = True
+
+    def __init__(s, ctx, dims, w):
+        _NDBase.__init__(s, ctx, dims, w)
+        s.odims, s.idim = dims[:-1], dims[-1]
+        ctx.globals_.append("class NInIfc( Interface ):\n  def construct( s ):\n    s.msg = InPort( Bits%d )\n" % w)
+        ctx.globals_.append("class NOutIfc( Interface ):\n  def construct( s ):\n    s.msg = OutPort( Bits%d )\n" % w)
+        ctx.globals_.append("class NSubI( Component ):\n  def construct( s ):\n    s.ii = [ NInIfc() for _ in range(%d) ]\n"
+                            "    s.oi = [ NOutIfc() for _ in range(%d) ]\n    @update\n    def up():\n"
+                            "      for j in range(%d):\n        s.oi[j].msg @= s.ii[j].msg + ( j + 1 )\n"
+                            % (s.idim, s.idim, s.idim))
+
+    def decl_int(s, name):
+        pre, post = _nest(s.odims)
+        return ["s.%s = %sNSubI()%s" % (name, pre, post)]
+
+    def rd(s, name, ix):
+        return "s.%s%s.oi[%s].msg" % (name, _sub(ix[:-1]), ix[-1])
+
+    def wr(s, name, ix):
+        return "s.%s%s.ii[%s].msg" % (name, _sub(ix[:-1]), ix[-1])
+
+
+class _NDConstArr(_NDBase):
+    """n-dimensional list of constants"""
+    writable = False
+
+    def decl_in(s, name):
+        def build(ix, dims):
+            if not dims:
+                return "Bits%d( %d )" % (s.w, (_flat(s.dims, ix) * 37 + 11) & ((1 << s.w) - 1))
+            return "[ " + ", ".join(build(ix + (i,), dims[1:]) for i in range(dims[0])) + " ]"
+        return ["s.%s = %s" % (name, build((), s.dims))]
+
+    def rd(s, name, ix):
+        return "s.%s%s" % (name, _sub(ix))
+
+
+_ND_CLS = {"port": _NDPort, "wire": _NDWire, "pfield": _NDPField, "pfwire": _NDPFWire, "pftmp": _NDPFTmp, "sfield": _NDSField,
+           "ifc": _NDIfc, "ifcnest": _NDIfcNest, "ifcport": _NDIfcPort, "comp": _NDComp, "comphet": _NDCompHet,
+           "compifc": _NDCompIfc, "constarr": _NDConstArr}
+_LOOPV = ["i", "j", "k"]
+
+
+def nd_design(R, cons, nd):
+    """One design of the grid: construct `cons` in `nd` dimensions, read and written with constant indices (c),
+    loop-variable indices (l), signal indices (v) in update blocks and with constant indices in connect
+    statements (n).  Flat one-dimensional port arrays (s.fi inputs, s.r* outputs) are the other side of
+    every access, so the n-dimensional construct is the only place where the index order matters."""
+    ctx = Ctx(R)
+    dims = R.choice(ND_DIMS[nd])
+    w = R.choice([8, 12])
+    C = _ND_CLS[cons](ctx, dims, w)
+    C.kind = cons
+    N = C.N
+    M = (1 << w) - 1
+    es = _elems(dims)
+    lv = _LOOPV[:nd]
+    tag = "%s.d%d" % (cons, nd)
+    pre1, post1 = _nest((N,))
+    decl = ["s.fi = %sInPort( Bits%d )%s" % (pre1, w, post1)]
+    decl += ["s.s%d = InPort( Bits%d )" % (k, clog2(d)) for k, d in enumerate(dims)]
+    sel = ["s.s%d" % k for k in range(nd)]
+    guard = " & ".join("( s.s%d < %d )" % (k, d) for k, d in enumerate(dims) if d & (d - 1))
+    blocks, sigs = [], {}
+
+    def cst(f):
+        return (f * 29 + 7) & M
+
+    def loops(body):
+        out = []
+        for k, v in enumerate(lv):
+            out.append("  " * k + "for %s in range(%d):" % (v, dims[k]))
+        return "\n".join(out + ["  " * nd + b for b in body])
+
+    def guarded(stmt, other):
+        if not guard:
+            return [stmt]
+        return ["if %s:\n  %s%s" % (guard, stmt, "\nelse:\n  %s" % other if other else "")]
+
+    def reader(inst, mode, sig):
+        o = "r" + mode
+        fe = _flat_expr(dims, lv)
+        if mode == "v":
+            decl.append("s.%s = OutPort( Bits%d )" % (o, w))
+        else:
+            decl.append("s.%s = %sOutPort( Bits%d )%s" % (o, pre1, w, post1))
+        sigs[o] = sig
+        if mode == "c":
+            blocks.append(_block("up_rc", C.pre_rd(inst) + ["s.rc[%d] @= %s + %d" % (_flat(dims, ix), C.rd(inst, ix), cst(_flat(dims, ix)))
+                                                            for ix in es]))
+        elif mode == "l":
+            blocks.append(_block("up_rl", C.pre_rd(inst) + [loops(["s.rl[%s] @= %s + ( %s )" % (fe, C.rd(inst, lv), fe)])]))
+        elif mode == "v":
+            blocks.append(_block("up_rv", C.pre_rd(inst) + guarded("s.rv @= %s" % C.rd(inst, sel), "s.rv @= %d" % cst(N))))
+        else:
+            for ix in es:
+                decl.append("s.rn[%d] //= %s" % (_flat(dims, ix), C.rd(inst, ix)))
+
+    def writer(inst, mode):
+        fe = _flat_expr(dims, lv)
+        if mode == "c":
+            blocks.append(_block("up_wc", ["%s @= s.fi[%d] + %d" % (C.wr(inst, ix), _flat(dims, ix), cst(_flat(dims, ix) + 3)) for ix in es]
+                                 + C.post_wr(inst, mode)))
+        elif mode == "l":
+            blocks.append(_block("up_wl", [loops(["%s @= s.fi[%s] + ( %s )" % (C.wr(inst, lv), fe, fe)])] + C.post_wr(inst, mode)))
+        elif mode == "v":
+            blocks.append(_block("up_wv", ["%s @= %d" % (C.wr(inst, ix), cst(_flat(dims, ix) + 5)) for ix in es]
+                                 + guarded("%s @= s.fi[0]" % C.wr(inst, sel), "") + C.post_wr(inst, mode)))
+        else:
+            for ix in es:
+                decl.append("%s //= s.fi[%d]" % (C.wr(inst, ix), _flat(dims, ix)))
+            decl.extend(C.post_wr(inst, mode))
+
+    modes = "clvn" if C.connect else "clv"
+    if C.internal:
+        for m, rm in zip("clvn", "lcnv"):
+            decl += C.decl_int("w" + m)
+            writer("w" + m, m)
+            reader("w" + m, rm, "%s.wr.%s+rd.%s" % (tag, m, rm))
+    else:
+        if C.readable:
+            decl += C.decl_in("a")
+            for m in modes:
+                reader("a", m, "%s.rd.%s" % (tag, m))
+        if C.writable:
+            for m in modes:
+                decl += C.decl_out("o" + m)
+                sigs["o" + m] = "%s.wr.%s" % (tag, m)
+                writer("o" + m, m)
+    xd, xb, xs = C.extra()
+    decl += [d for d in xd if d not in decl]
+    blocks += xb
+    sigs.update(xs)
+    return "nd_%s_d%d" % (cons, nd), _emit(ctx, blocks, decl), sigs
+
+
+def fam_nd(R, idx):
+    cons = ND_CONSTRUCTS[idx % len(ND_CONSTRUCTS)]
+    nd = 1 + (idx // len(ND_CONSTRUCTS)) % 3
+    return nd_design(R, cons, nd)
+
+
 FAMILIES = {"unit": fam_unit, "ops": fam_ops, "expr": fam_expr, "ctrl": fam_ctrl, "loopidx": fam_loopidx, "struct": fam_struct,
-            "hier": fam_hier, "seq": fam_seq, "misc": fam_misc}
+            "hier": fam_hier, "seq": fam_seq, "misc": fam_misc, "nd": fam_nd}
 
 
 def design(family, index, seed_tag=""):
